@@ -141,42 +141,11 @@ def root_development(
 
         # Adjust expansion rate for presence of restrictive soil horizons
         if Zr > Crop.Zmin:
-            layeri = 1
-            l_idx = np.argwhere(prof.Layer == layeri).flatten()
-            Zsoil = prof.dz[l_idx].sum()
-            while (round(Zsoil, 2) <= Crop.Zmin) and (layeri < Soil_nLayer):
-                layeri = layeri + 1
-                l_idx = np.argwhere(prof.Layer == layeri).flatten()
-                Zsoil = Zsoil + prof.dz[l_idx].sum()
-
-            soil_layer_dz = prof.dz[l_idx].sum()
-            layer_comp = l_idx[0]
-            # soil_layer = prof.Layer[layeri]
-            ZrAdj = Crop.Zmin
-            ZrRemain = Zr - Crop.Zmin
-            deltaZ = Zsoil - Crop.Zmin
-            EndProf = False
-            while EndProf == False:
-                ZrTest = ZrAdj + (ZrRemain * (prof.Penetrability[layer_comp] / 100))
-                if (
-                    (layeri == Soil_nLayer)
-                    or (prof.Penetrability[layer_comp] == 0)
-                    or (ZrTest <= Zsoil)
-                ):
-                    ZrOUT = ZrTest
-                    EndProf = True
-                else:
-                    ZrAdj = Zsoil
-                    ZrRemain = ZrRemain - (deltaZ / (prof.Penetrability[layer_comp] / 100))
-                    layeri = layeri + 1
-                    l_idx = np.argwhere(prof.Layer == layeri).flatten()
-                    layer_comp = l_idx[0]
-                    soil_layer_dz = prof.dz[l_idx].sum()
-                    Zsoil = Zsoil + soil_layer_dz
-                    deltaZ = soil_layer_dz
-
-            # Correct Zr and dZr for effects of restrictive horizons
-            Zr = ZrOUT
+            # Apply the restriction to the depths of both days, so that the
+            # daily increment compares like with like
+            Zr = _restricted_root_depth(Zr, Crop.Zmin, prof, Soil_nLayer)
+            if ZrOld > Crop.Zmin:
+                ZrOld = _restricted_root_depth(ZrOld, Crop.Zmin, prof, Soil_nLayer)
             dZr = Zr - ZrOld
 
         # Adjust rate of expansion for any stomatal water stress
@@ -260,3 +229,44 @@ def root_development(
         NewCond_Zroot = 0
 
     return NewCond_Zroot, NewCond_rCor
+
+
+def _restricted_root_depth(Zr, Zmin, prof, Soil_nLayer):
+    """
+    Potential rooting depth Zr (> Zmin) reduced for the penetrability of the
+    soil layers the roots have to cross below Zmin
+    """
+    layeri = 1
+    l_idx = np.argwhere(prof.Layer == layeri).flatten()
+    Zsoil = prof.dz[l_idx].sum()
+    while (round(Zsoil, 2) <= Zmin) and (layeri < Soil_nLayer):
+        layeri = layeri + 1
+        l_idx = np.argwhere(prof.Layer == layeri).flatten()
+        Zsoil = Zsoil + prof.dz[l_idx].sum()
+
+    soil_layer_dz = prof.dz[l_idx].sum()
+    layer_comp = l_idx[0]
+    ZrAdj = Zmin
+    ZrRemain = Zr - Zmin
+    deltaZ = Zsoil - Zmin
+    EndProf = False
+    while EndProf == False:
+        ZrTest = ZrAdj + (ZrRemain * (prof.Penetrability[layer_comp] / 100))
+        if (
+            (layeri == Soil_nLayer)
+            or (prof.Penetrability[layer_comp] == 0)
+            or (ZrTest <= Zsoil)
+        ):
+            ZrOUT = ZrTest
+            EndProf = True
+        else:
+            ZrAdj = Zsoil
+            ZrRemain = ZrRemain - (deltaZ / (prof.Penetrability[layer_comp] / 100))
+            layeri = layeri + 1
+            l_idx = np.argwhere(prof.Layer == layeri).flatten()
+            layer_comp = l_idx[0]
+            soil_layer_dz = prof.dz[l_idx].sum()
+            Zsoil = Zsoil + soil_layer_dz
+            deltaZ = soil_layer_dz
+
+    return ZrOUT
